@@ -137,7 +137,9 @@ class Report:
             for o in new_viol:
                 # an algebraic identity that was extracted and then fails is a failure of the formulas
                 # themselves, whatever the shape of the function: never demoted
-                algebraic = str(o.detail).startswith(("residual ", "g_12 - e_x", "x-y form ==", "difference "))
+                # ... and so is a construct that is wrong wherever it stands (a store guarded by a
+                # test of its own existence, an in-place change of shared state): "definite: ..."
+                algebraic = str(o.detail).startswith(("residual ", "g_12 - e_x", "x-y form ==", "difference ", "definite: "))
                 d = None
                 if not algebraic:
                     # the function the instance is anchored in, then every function this check
